@@ -71,7 +71,7 @@ PROBES = ['context_switch', 'cancel_fired', 'cancel_reissued', 'recursion_squeez
           'fork_worker', 'spawn_worker', 'debug_logging', 'lazy_iterator_interleaved', 'inplace_on_derived',
           'subprocess_hashseed_pair', 'multi_client', 'single_client', 'transform_output_in_world',
           'handbuilt_in_world', 'random_key_constant_stream', 'reference_and_run_under_different_log_levels',
-          'duplicate_triples_in_world']
+          'duplicate_triples_in_world', 'enumerated_switch_point']
 
 ALL_FILES = ['layout.py', 'graph.py', 'transform.py', 'codec.py', 'model.py', '_parse.py', '_lexer.py', '_format.py',
              'tree.py', 'surface.py', 'constant.py', 'epigraph.py', 'exceptions.py', '__init__.py']
@@ -214,6 +214,12 @@ def plan(rng, idx, tier):
                 and op['op'] in ('reify_edges', 'dereify_edges', 'role_algebra', 'errors', 'encode', 'decode')]
         target = pref[0] if pref else clients[0][0]
         t['enumerate_cancel'] = {'op_id': target['id'], 'max_lines': 400 if tier == 'thorough' else 200}
+    if nclients >= 2 and ((tier == 'thorough' and idx % 10 == 5) or idx % 40 == 20):
+        # bounded exhaustive exploration of one pair of calls: the first call of client 0 is pre-empted at *every* one
+        # of its line events in turn, and the first call of client 1 runs to completion in between
+        a_, b_ = clients[0][0], clients[1][0]
+        if a_['op'] not in ('iter_open', 'iter_next') and b_['op'] not in ('iter_open', 'iter_next'):
+            t['enumerate_switch'] = {'a': a_['id'], 'b': b_['id'], 'max_lines': 600 if tier == 'thorough' else 250}
     return t
 
 
@@ -823,6 +829,8 @@ def _execute(trace, cfg, clients, res, levels=('WARNING', 'WARNING')):
 
     if trace.get('enumerate_cancel'):
         enumerate_cancel(trace, reference, res)
+    if trace.get('enumerate_switch'):
+        enumerate_switch(trace, res)
     if trace.get('subprocess'):
         subprocess_pair(trace, res)
 
@@ -830,6 +838,53 @@ def _execute(trace, cfg, clients, res, levels=('WARNING', 'WARNING')):
 def _short(x):
     s = digest.dumps(x)
     return s if len(s) < 1500 else s[:1500] + '...'
+
+
+def enumerate_switch(trace, res):
+    """Every line event of call A as the one pre-emption point; call B runs to completion there; A resumes."""
+    spec = trace['enumerate_switch']
+    byid = {op['id']: op for ops_ in trace['clients'] for op in ops_}
+    A, B = byid.get(spec['a']), byid.get(spec['b'])
+    if A is None or B is None:
+        return
+    ref_a = result_canon(lambda: run_op(World(trace['world']), dict(A, pickle=False), {'iters': []}))
+    ref_b = result_canon(lambda: run_op(World(trace['world']), dict(B, pickle=False), {'iters': []}))
+    for k in range(1, spec.get('max_lines', 250) + 1):
+        world = World(trace['world'])
+        pristine = world.digests()
+        state = {'bad': None}
+
+        def on_switch(me, succ, frame, world=world, pristine=pristine, state=state):
+            if world.digests() != pristine and state['bad'] is None:
+                state['bad'] = (os.path.basename(frame.f_code.co_filename), frame.f_lineno) if frame is not None else ('?', 0)
+        S = sched.Scheduler(2, rng=Rng(0), p_switch=0.0, schedule=[[0, A['id'], k, 1], [1, 'end', 0, 0]],
+                            on_switch=on_switch)
+        out = {}
+
+        def body_a(ctx):
+            S.begin_op(ctx, A['id'])
+            out['a'] = result_canon(lambda: run_op(world, A, {'iters': []}))
+
+        def body_b(ctx):
+            S.begin_op(ctx, B['id'])
+            out['b'] = result_canon(lambda: run_op(world, B, {'iters': []}))
+        S.run([body_a, body_b], first=0)
+        if not S.switches:
+            break           # call A has fewer than k line events
+        res.hit('probe.enumerated_switch_point')
+        site = sorted(S.preempt_sites)[0] if S.preempt_sites else ('?', 0)
+        res.cover.add(digest.dumps(['sw', site[0], site[1], A['op'], B['op']]))
+        if state['bad'] is not None or world.digests() != pristine:
+            res.violate('arguments', 'shared-object-changed', where=f'enumerated switch at line event {k} of {A["op"]} '
+                        f'({site[0]}:{site[1]}), {B["op"]} ran in between', objects=[], running={'0': A['op'], '1': B['op']})
+            break
+        if out.get('a') != ref_a or out.get('b') != ref_b:
+            which = 'a' if out.get('a') != ref_a else 'b'
+            res.violate('refinement', 'result-differs-from-sequential-execution', client=0 if which == 'a' else 1,
+                        op=A if which == 'a' else B, expected=_short(ref_a if which == 'a' else ref_b),
+                        got=_short(out.get(which)), switches=1,
+                        scripts=[[A['op']], [B['op']]], enumerated_switch=[k, site[0], site[1]])
+            break
 
 
 def enumerate_cancel(trace, reference, res):
@@ -977,7 +1032,7 @@ def shrink(trace):
     yield from list_candidates(trace, ['faults'])
     if trace.get('schedule'):
         yield from list_candidates(trace, ['schedule'])
-    for key in ('transport', 'subprocess', 'enumerate_cancel'):
+    for key in ('transport', 'subprocess', 'enumerate_cancel', 'enumerate_switch'):
         if trace.get(key):
             t = copy.deepcopy(trace)
             t[key] = {} if key == 'transport' else None
